@@ -1,7 +1,7 @@
 (* Exec2.v — executable instances of Ops.v / Spec2.v on cells = list Q and the second half of
    the operation interpreter run by the correspondence check. *)
 From Coq Require Import QArith Qround.
-From HS Require Import Prelude Cov Map Spec Ops Spec2 Exec Packed.
+From HS Require Import Prelude Cov Map Spec Ops Spec2 Exec Packed Moc.
 Open Scope Z_scope.
 
 (* ---------- element arithmetic on Q ---------- *)
@@ -26,6 +26,7 @@ Definition qfun (code : Z) : Q -> Q -> Q :=
   else if code =? 3 then qdiv else if code =? 4 then qpow
   else if code =? 5 then qbit Z.land else if code =? 6 then qbit Z.lor else if code =? 7 then qbit Z.lxor
   else if code =? 8 then qmax else if code =? 9 then qmin else if code =? 10 then qfloordiv
+  else if code =? 11 then (fun _ b => b)
   else fun a _ => a.
 
 Definition hd1 (v : cellv) : Q := znth q0 v 0.
@@ -135,6 +136,36 @@ Definition step2 (w : world) (op : list (list Z)) : world * result :=
   let code := gz op 0 0 in
   let h := gz op 1 0 in
   if code <? 14 then step w op else
+  if code =? 32 then
+    (* concatenation: [32];[hout];hs;kout;[ncov_out nfine_out] — at every pixel the value of the one
+       input valid there (union with "take the new value"); the L1 state is the dense union re-housed
+       on the output coverage resolution *)
+    let hout := gz op 1 0 in
+    match wget_all w (grp op 2) with
+    | None => (w, err 1)
+    | Some ss =>
+      let kout := kinfo_of (grp op 3) in
+      let sent := blank_of kout in
+      match ss with
+      | [] => (w, err 4)
+      | s0 :: _ =>
+        let bl := blank (h_m s0) in
+        match d_apply_operation cellv dcell (fun _ b => b) (fun v => v) bl bl true false
+                                (map (fun s => (k_valid (h_k s), h_d s)) ss) with
+        | None => (w, err 4)
+        | Some du =>
+          let n' := gz op 4 0 in let nf' := gz op 4 1 in
+          let m0 := make_empty cellv n' nf' bl None in
+          let d0 := d_make_empty cellv n' nf' bl None in
+          let overlap := existsb (fun p => 1 <? zlen (d_vals_at cellv dcell (map (fun s => (k_valid (h_k s), h_d s)) ss) p))
+                                 (zrange 0 (d_npix cellv du)) in
+          (wset w hout (mkh kout (x_update kout m0 URepl (d_valid_pvs kout du) false)
+                                 (x_dupdate kout d0 URepl (d_valid_pvs kout du) false)),
+           [ok1; [if overlap then 1 else 0]])
+        end
+      end
+    end
+  else
   if code =? 19 then
     (* multi-map operation: [19];[hout];[fcode union fill_first];hs;[filler n d];kout;[convmode] *)
     let hout := gz op 1 0 in
@@ -277,6 +308,25 @@ Definition step2 (w : world) (op : list (list Z)) : world * result :=
       let m' := if guard_l1 then m else mkmap (nfine mu) (idx mu) (sp mu) (blank mu) (cache m) in
       let d' := if guard_l0 then d else x_dupdate k d URepl pvs0 false in
       (wset w hout (mkh k m' d'), [ok1; [if guard_l1 then 1 else 0; if guard_l0 then 1 else 0]])
+    else if code =? 33 then
+      (* interpolate_pos: [33];[h];[allow_partial];pixels (4 per position);weights (4 rationals per position)
+         -> per position [flag; num; den] (flag 0 = UNSEEN) from L1 reads, then the same from L0 *)
+      let ap := gz op 2 0 =? 1 in
+      let pixs := chunks 4 (grp op 3) in
+      let wts := chunks 4 (qs_of (grp op 4)) in
+      let one (rd : Z -> cellv) (pw : list Z * list Q) : list Z :=
+        let vs := map (fun p => rd p) (fst pw) in
+        let ok := map (k_valid k) vs in
+        let trip := combine (combine (map hd1 vs) (snd pw)) ok in
+        let good := filter (fun t => snd t) trip in
+        let num := qsum (map (fun t => qmul (fst (fst t)) (snd (fst t))) good) in
+        if ap then
+          let den := qsum (map (fun t => snd (fst t)) good) in
+          match good with [] => [0; 0; 1] | _ => if qnz den then 1 :: zs_of_q (qdiv num den) else [0; 0; 1] end
+        else
+          if forallb (fun b => b) ok then 1 :: zs_of_q (qdiv num (qsum (snd pw))) else [0; 0; 1] in
+      (w, [ok1; flat_map (one (x_read m)) (combine pixs wts);
+           flat_map (one (d_read cellv dcell d)) (combine pixs wts)])
     else if code =? 28 then
       (* check_bits over all pixels: [28];[h];[-];[bits integer] *)
       let bits := gz op 3 0 in
@@ -304,7 +354,30 @@ Definition packed_monitor (op : list (list Z)) : result :=
     [ok1; [f_lo d; f_hi d; m_lo d; m_hi d; l_lo d; l_hi d]]
   else [ok1; [lut_entry (gz op 1 0)]].
 
+(* random points (healSparseRandoms.py) as functions of the generator's draws *)
+Definition fast_pixels (shift : Z) (coarse sub : list Z) : list Z :=
+  map2 (fun c s => Z.shiftl c shift + s) coarse sub.
+(* the rejection loop: indices of the first n candidates that fall on a valid pixel *)
+Fixpoint accept (n : nat) (i : Z) (flags : list Z) : list Z :=
+  match n, flags with
+  | O, _ => []
+  | _, [] => []
+  | S k, f :: r => if f =? 1 then i :: accept k (i + 1) r else accept n (i + 1) r
+  end.
+
+Definition stateless_monitor (op : list (list Z)) : result :=
+  let code := gz op 0 0 in
+  if code =? 30 then [ok1; moc_cells (gz op 1 0) (gz op 1 1) (grp op 2)]
+  else if code =? 31 then [ok1; moc_expand (gz op 1 0) (grp op 2); [moc_max_order (grp op 2)];
+                           map uniq_order (grp op 2)]
+  else if code =? 34 then
+    let px := fast_pixels (gz op 1 0) (grp op 2) (grp op 3) in
+    [ok1; px; map (fun p => Z.shiftr p (gz op 1 0)) px]
+  else [ok1; accept (Z.to_nat (gz op 1 0)) 0 (grp op 2)].
+
 Definition step_top2 (w : world) (op : list (list Z)) : world * result :=
-  if gz op 0 0 =? 9 then (w, layout_monitor op)
-  else if 40 <=? gz op 0 0 then (w, packed_monitor op)
+  let code := gz op 0 0 in
+  if code =? 9 then (w, layout_monitor op)
+  else if 40 <=? code then (w, packed_monitor op)
+  else if (code =? 30) || (code =? 31) || (code =? 34) || (code =? 35) then (w, stateless_monitor op)
   else step2 w op.
